@@ -151,6 +151,8 @@ class _randobj:
                         else:
                             raise Exception("Attempting to use '=' in a constraint")
                     elif isinstance(fo, list_t):
+                        # (the new content may be read from the list itself)
+                        val = [i for i in val]
                         fo.clear()
                         for i in val:
                             fo.append(i)
